@@ -30,7 +30,7 @@ CHECKS.update({
     "C20": dict(
         level="exploration",
         technique="exhaustive enumeration of every member of every XML-mapped enumeration, every preset auto-shape row and every writable chart type, compared with the schema enumerations and presetShapeDefinitions.xml shipped in the repository",
-        text="575 enumeration members (run time and module AST: aliases that would fold a token away are seen), 182 auto-shape rows against the standard's preset definitions (with the stated erratum tolerance), 182 add_shape read-backs (live and after re-open), adjustment histories for every adjustable preset (first shape set / loaded with explicit guides, fresh shapes afterwards read the defaults), 29 writable chart types x 9 data sizes read back (fresh, after re-open, and again after ONE data point and the marker outline were formatted), all writable types together on one slide, and every chart of the PowerPoint-authored chart-type deck read against the types the repository's acceptance specification documents; the space is finite and enumerated completely.",
+        text="575 enumeration members (run time and module AST: aliases that would fold a token away are seen), 182 auto-shape rows against the standard's preset definitions (with the stated erratum tolerance), 182 add_shape read-backs (live and after re-open), adjustment histories for every adjustable preset (first shape set / loaded with explicit guides, fresh shapes afterwards read the defaults), 29 writable chart types x 9 data sizes read back (fresh, after re-open, and again after ONE data point and the marker outline were formatted), all writable types together on one slide, and every chart of the PowerPoint-authored chart-type deck read against the types the repository's acceptance specification documents; the space is finite and enumerated completely. Wave 7/8 additions: every writable chart type also given by its plain integer value (accepted -> must read back as the member; refused is fine); loaded shapes whose a:avLst lists the guides in reverse order or only the adjusted guide are read by guide name (types with >= 2 adjustments, every index).",
         note="Trusted: spec/ XSDs and presetShapeDefinitions.xml as shipped; the enum -> ST_* table in mc/props/c20.py is cross-checked against the attribute declarations that use each enum.",
         design="4/C20"),
 })
@@ -45,7 +45,7 @@ CHECKS.update({
     "C06": dict(
         level="model_checking",
         technique="explicit-state BFS over addition histories on the real Presentation (replay mode) from decks with seeded id populations; before/after observation of every transition checked against the uniqueness/stability statement",
-        text="All histories over a 26-operation alphabet (every shape kind at top level, in a group, in a nested group, freeform and group allocators, turbo on/off, slides, notes, hyperlinks incl. shared relationships, save, save+re-open) to depth 2 (thorough 3), plus an id-allocating sub-alphabet to depth 3 (thorough 4), from 14 decks whose shape-id and slide-id populations have gaps, 2^31 / 2^32-2 ids, GUID extension ids, duplicates, leading zeros and the slide-id upper bound.",
+        text="All histories over a 26-operation alphabet (every shape kind at top level, in a group, in a nested group, freeform and group allocators, turbo on/off, slides, notes, hyperlinks incl. shared relationships, save, save+re-open) to depth 2 (thorough 3), plus an id-allocating sub-alphabet to depth 3 (thorough 4), from 14 decks whose shape-id and slide-id populations have gaps, 2^31 / 2^32-2 ids, GUID extension ids, duplicates, leading zeros and the slide-id upper bound. Initial decks now include 'ten_each' (10 charts, 10 embedded workbooks, 10 notes slides: the next number of every part kind is the first after 10; slide 1 has a gap in its relationship ids).",
         note="Trusted: bare lxml reads of part blobs; the package's in-memory relationship mapping. Shape ids = numeric p:cNvPr/@id of shape-tree members. Known finding: turbo mode (documented experimental cache) collides with allocations that bypass the cache.",
         design="4/C06"),
     "C10": dict(
@@ -72,7 +72,7 @@ CHECKS.update({
     "C04": dict(
         level="exploration",
         technique="bounded-exhaustive enumeration of all strings over a 14-character alphabet (length <= 3 / <= 4) x 4 assignment levels x 6 prior body states, plus all ordered assignment pairs, executed on real text bodies against a reference model of the documented translations",
-        text="Every string over {a, space, LF, VT, TAB, CR, NUL, BEL, US, <, &, astral, _, x} up to length 3 (thorough 4) plus 25 fixed longer strings (runs of 12 and 40 breaks, C1 controls, DEL, surrogate-adjacent code points, _xHHHH_ look-alikes of non-control code points), assigned at frame / cell / paragraph / run / shape level onto six prior bodies (fields, leading breaks, properties), all ordered pairs of assignments over the 24 level pairs, and strings of unusual TYPE (plain str subclass, subclass with its own __str__, str-enum member) at every level, and table cells stored without a text body; getter at every level, a:p / a:br counts, a:pPr preservation, part-level re-parse and two real save/re-open cycles. Sizes asserted against closed forms.",
+        text="Every string over {a, space, LF, VT, TAB, CR, NUL, BEL, US, <, &, astral, _, x} up to length 3 (thorough 4) plus 25 fixed longer strings (runs of 12 and 40 breaks, C1 controls, DEL, surrogate-adjacent code points, _xHHHH_ look-alikes of non-control code points), assigned at frame / cell / paragraph / run / shape level onto six prior bodies (fields, leading breaks, properties), all ordered pairs of assignments over the 24 level pairs, and strings of unusual TYPE (plain str subclass, subclass with its own __str__, str-enum member) at every level, and table cells stored without a text body; getter at every level, a:p / a:br counts, a:pPr preservation, part-level re-parse and two real save/re-open cycles. Sizes asserted against closed forms. Plus two text hosts of one kind in one session (auto shapes, text boxes, cells, titles / picture placeholders on two slides, p:sp and a:tc stored without a text body) x 2 entry points x histories A,B and A,B,A, live and after re-open.",
         note="Trusted: mc/oracles/text_ref.py (written from the statement), bare lxml reads of the body. Escape look-alike literals (_x000A_) are only judged for stability (statement silent).",
         design="4/C04"),
     "C12": dict(
@@ -117,7 +117,7 @@ CHECKS.update({
     "C09": dict(
         level="model_checking",
         technique="exhaustive enumeration of assignment histories (all single assignments over per-property value alphabets, all ordered pairs on one object; thorough: cross-object pairs and triples) from a declarative catalogue, executed on real objects of a workbench deck and of corpus decks, against a last-assigned-value reference model incl. sibling readings and save/re-open",
-        text="111 of the 139 settable properties found by reflection (26 are decided by C18/C04/C17/C06, 2 listed as uncovered) x boundary / quantum-neighbour / interior / default / zero / None / wrong-typed values and EVERY member of every enumeration: read-back within the storage quantum through the same and a freshly located proxy, documented None reading, TypeError/ValueError for out-of-domain values, sibling readings outside the independence group unchanged, the same readings after save/re-open; all ordered pairs on one object over a reduced alphabet, cross-point pairs (thorough: cross-object pairs, triples on text objects), three workbench decks (library-written, PowerPoint-form, no slide size) and corpus objects; plus adjustments[i] = v for every preset auto-shape type x index x 4 values (1292 assignments); 20k (thorough ~75k) checked transitions.",
+        text="111 of the 139 settable properties found by reflection (26 are decided by C18/C04/C17/C06, 2 listed as uncovered) x boundary / quantum-neighbour / interior / default / zero / None / wrong-typed values and EVERY member of every enumeration: read-back within the storage quantum through the same and a freshly located proxy, documented None reading, TypeError/ValueError for out-of-domain values, sibling readings outside the independence group unchanged, the same readings after save/re-open; all ordered pairs on one object over a reduced alphabet, cross-point pairs (thorough: cross-object pairs, triples on text objects), three workbench decks (library-written, PowerPoint-form, no slide size) and corpus objects; plus adjustments[i] = v for every preset auto-shape type x index x 4 values (1292 assignments); 20k (thorough ~75k) checked transitions. Every pair history is also run as two editing sessions (assign, save, re-open, assign on the re-opened deck); ordered pairs across TWO objects of one kind in one deck (19 twin kinds: shapes, text frames, paragraphs, fonts, fills, lines, cells, rows, columns, gradient stops, series, markers, axes, data labels; both orders); quick cross group fill kind x outline colour x text colour of one shape.",
         note="Trusted: the catalogue mc/props/c09_catalog.py, written from the docstrings (weaker reading where a domain is undocumented). A rejected assignment that changes only the XML but no reading is counted, not reported (C03/C11 judge the XML). Truncation inside one quantum is by definition invisible.",
         design="4/C09 + Appendix A"),
     "C14": dict(
@@ -129,7 +129,7 @@ CHECKS.update({
     "C15": dict(
         level="model_checking",
         technique="exhaustive enumeration of generated images (format x size x dpi x file-name/hand-over variant x requested size) through the real add_picture, plus explicit-state BFS (replay mode) over picture / placeholder / movie-poster / OLE-icon / save+re-open histories with a multiset-of-byte-strings reference model, judged on the saved zip by an independent reader",
-        text="Generated images (PNG/JPEG/GIF/BMP/TIFF, 17 sizes, 11 dpi settings read back by hand-written header parsers) x 6 hand-over variants x 4 size requests; every pixel extent 1..128 (thorough 1..256, and every integer dpi 1..2048) x 18 resolutions x 4 formats with an exact rational size oracle; ten kinds of file-like object (BytesIO, files opened rb / w+b flushed or not, temporary files, spooled, misleading .name, minimal read/seek/tell) x cursor positions x small / larger-than-the-I/O-buffer images x 4 entry points; the own images of every corpus deck that holds images added again (as opened / after re-save, stream / path); and all histories to depth 3 (thorough 4) over 13 operations from 3 initial decks incl. one with ten images: 31k (thorough 349k) evaluations; every state has exactly one media part per distinct byte string, byte-exact, with the extension/content type of the real format, native size = pixels x 914400 / dpi (72 when absent or implausible), aspect ratio within rounding.",
+        text="Generated images (PNG/JPEG/GIF/BMP/TIFF, 17 sizes, 11 dpi settings read back by hand-written header parsers) x 6 hand-over variants x 4 size requests; every pixel extent 1..128 (thorough 1..256, and every integer dpi 1..2048) x 18 resolutions x 4 formats with an exact rational size oracle; ten kinds of file-like object (BytesIO, files opened rb / w+b flushed or not, temporary files, spooled, misleading .name, minimal read/seek/tell) x cursor positions x small / larger-than-the-I/O-buffer images x 4 entry points; the own images of every corpus deck that holds images added again (as opened / after re-save, stream / path); and all histories to depth 3 (thorough 4) over 13 operations from 3 initial decks incl. one with ten images: 31k (thorough 349k) evaluations; every state has exactly one media part per distinct byte string, byte-exact, with the extension/content type of the real format, native size = pixels x 914400 / dpi (72 when absent or implausible), aspect ratio within rounding. A fifth initial deck has holes in its image numbering (image1, image3, image7; BFS depth 2 quick / 3 thorough).",
         note="Trusted: mc/oracles/image_ref.py (own PNG pHYs / JFIF / BMP / TIFF readers, cross-checked against Pillow), mc/oracles/opc_ref.py. The generator's request is the truth about the format (not Pillow's detection).",
         design="4/C15"),
     "C17": dict(
@@ -144,7 +144,7 @@ CHECKS.update({
     "C13": dict(
         level="model_checking",
         technique="exhaustive enumeration of every corpus layout and of generated layout / notes-master placeholder populations, plus explicit-state BFS (replay mode) over add_slide / move / text / notes / save histories, executed on the real API against an expected-placeholder model computed from the layout XML by a bare-lxml reader",
-        text="All 178 layouts of the 68 corpus decks; generated layouts with every single placeholder over 17 types x orientation x idx x xfrm (absent, complete, zero offsets) x sz x 2 masters, all pairs over a reduced product (thorough adds the full idx^2 and triples), placeholder-name configurations (distinct / shared / empty / equal to the name generated for another clone); notes slides on every deck, generated notes masters (singles, and ordered pairs over 6 types x 2 | 4 idx values x xfrm); every corpus layout and notes master again after its placeholders were renamed to one name; BFS to depth 3 (thorough 4) over 15 operations from 3 decks. Each new slide mirrors type/idx/orient/sz one-for-one in order, with distinct names, layout (else master) geometry, is last, related to its layout, leaves other slides unchanged, in memory and after save/re-open.",
+        text="All 178 layouts of the 68 corpus decks; generated layouts with every single placeholder over 17 types x orientation x idx x xfrm (absent, complete, zero offsets) x sz x 2 masters, all pairs over a reduced product (thorough adds the full idx^2 and triples), placeholder-name configurations (distinct / shared / empty / equal to the name generated for another clone); notes slides on every deck, generated notes masters (singles, and ordered pairs over 6 types x 2 | 4 idx values x xfrm); every corpus layout and notes master again after its placeholders were renamed to one name; BFS to depth 3 (thorough 4) over 15 operations from 3 decks. Each new slide mirrors type/idx/orient/sz one-for-one in order, with distinct names, layout (else master) geometry, is last, related to its layout, leaves other slides unchanged, in memory and after save/re-open. Family D: each template layout x each cloneable placeholder removed from the layout through shape.element after a warm-up {none, add_slide, iterate placeholders, read inherited dimension}, then add_slide: the slide mirrors the layout as it is now (100 cases).",
         note="Trusted: mc/props/c13_lib.py (bare-lxml placeholder reader and inheritance rule of the standard), generated decks of mc/props/c13_gen.py (harness-side zip rewriting). With duplicate idx values in one layout any layout placeholder sharing the idx is accepted as counterpart (weaker reading).",
         design="4/C13"),
 })
